@@ -87,8 +87,9 @@ def stage(ctx, prop=None, quick=False):
     recs, summary, present = record(files)
     end = [r for r in recs if r["prop"] == "END"]
     errs = [r for r in recs if r["prop"] == "ERR"]
-    if errs:
-        raise RuntimeError("suite trace: judge error %s" % errs[0])
+    for r in errs[:3]:
+        # a judge raised on what the routine returned to the test (see par.JudgeError): a verdict, not a machinery failure
+        ctx.fail(r["fn"], "OutputNotInterpretable", "repo-test", r["detail"])
     if not end:
         # the test run itself broke down (possible on a changed tree): what was recorded until then is still validated
         ctx.drift.append("repo-test recording did not reach the end of the pytest session (%s)" % summary)
